@@ -86,10 +86,13 @@ def materialize(world, scratch, vcf_name="in.vcf", phased_truth=False, tag="PS")
             vcf.add(c["name"], v.pos, v.ref, v.alts, calls, fmt=fmts)
     vcf_path = vcf.write(os.path.join(scratch, vcf_name))
     # reads
-    alns = []
+    nbam = 1 + max([r.get("bam", 0) for r in world.get("reads", [])] + [0])
+    alns_by_bam = [[] for _ in range(nbam)]
+    counters = [0] * nbam
     rgs = [{"ID": f"rg_{s}", "SM": s} for s in samples]
     n = 0
     for r in world.get("reads", []):
+        alns = alns_by_bam[r.get("bam", 0)]
         ci = next(i for i, c in enumerate(world["chroms"]) if c["name"] == r["chrom"])
         seq = seqs[ci][1]
         vs = variants[ci]
@@ -100,13 +103,23 @@ def materialize(world, scratch, vcf_name="in.vcf", phased_truth=False, tag="PS")
             alleles.append(0 if g is None else g[r["hap"]])
         for copy in range(r.get("n", 1)):
             n += 1
-            name = r.get("name", f"r{n}")
+            counters[r.get("bam", 0)] += 1
+            # read names are unique within one file only (every file numbers its reads from 1)
+            name = r.get("name", f"r{counters[r.get('bam', 0)]}" if nbam > 1 else f"r{n}")
             pieces = []
             for first, last, lm, rm in r["segs"]:
                 start = max(0, vs[first].pos - lm)
                 end = min(len(seq), vs[last].pos + len(vs[last].ref) + rm)
                 q, cig = synth.hap_read(seq, vs, alleles, start, end, r.get("style", "M"))
                 pieces.append((start, end, q, cig))
+            # optional clipping: hard clips carry no bases, soft clips carry junk bases
+            lead, trail = r.get("lead_clip"), r.get("trail_clip")
+            if lead:
+                s0, e0, q0, c0 = pieces[0]
+                pieces[0] = (s0, e0, ("GATTACAGATTACAGATTACA"[: lead[1]] if lead[0] == "S" else "") + q0, [(4 if lead[0] == "S" else 5, lead[1])] + c0)
+            if trail:
+                s0, e0, q0, c0 = pieces[-1]
+                pieces[-1] = (s0, e0, q0 + ("TTGACCATTGACCATTGACCA"[: trail[1]] if trail[0] == "S" else ""), c0 + [(4 if trail[0] == "S" else 5, trail[1])])
             if len(pieces) == 1 or r.get("link", "N") == "N":
                 # one alignment; segments joined by reference skips
                 q = ""
@@ -125,9 +138,12 @@ def materialize(world, scratch, vcf_name="in.vcf", phased_truth=False, tag="PS")
                     alns.append(
                         {"name": name, "chrom": r["chrom"], "start": s, "cigar": cc, "seq": qq, "rg": f"rg_{r['sample']}", "flag": flag, "mate": {"chrom": r["chrom"], "start": other[0]}, "mapq": r.get("mapq", 60)}
                     )
-    bam = os.path.join(scratch, "reads.bam")
-    synth.write_bam(bam, [(n_, len(s)) for n_, s in seqs], alns, read_groups=rgs)
-    return {"fasta": fasta, "vcf": vcf_path, "bam": bam, "variants": variants, "seqs": seqs}
+    bams = []
+    for bi, alns in enumerate(alns_by_bam):
+        bam = os.path.join(scratch, "reads.bam" if bi == 0 else f"reads{bi + 1}.bam")
+        synth.write_bam(bam, [(n_, len(s)) for n_, s in seqs], alns, read_groups=rgs)
+        bams.append(bam)
+    return {"fasta": fasta, "vcf": vcf_path, "bam": bams[0], "bams": bams, "variants": variants, "seqs": seqs}
 
 
 def run_phase(paths, scratch, out_name="out.vcf", trace=True, phase_inputs=None, **opts):
@@ -142,7 +158,7 @@ def run_phase(paths, scratch, out_name="out.vcf", trace=True, phase_inputs=None,
     os.environ["WHATSHAP_VERIF_TRACE"] = tr if trace else "/dev/null"
     kw = dict(reference=paths["fasta"], write_command_line_header=False)
     kw.update(opts)
-    inputs = phase_inputs if phase_inputs is not None else [paths["bam"]]
+    inputs = phase_inputs if phase_inputs is not None else list(paths.get("bams") or [paths["bam"]])
     err = None
     try:
         with open(out, "w") as f:
